@@ -1,6 +1,7 @@
 import EaselModel.Miniapps.Tools
 import EaselModel.Miniapps.ReformatMsaLemmas
 import EaselModel.Miniapps.AliLemmas
+import EaselModel.Miniapps.Compstruct
 /-! # C13 — property theorems about the reference functions of the miniapps (statements + glue only)
 
 The property has two halves. The half a model can express — "for valid inputs the core tools produce what their manual
@@ -589,6 +590,34 @@ example : insertCounts viewsRna.a [true, false, false, true] [[0, 1, 4, 2], [0, 
   decide +kernel
 
 end AlistatInfo
+
+/-! ## esl-compstruct (`Miniapps/Compstruct.lean`; complete stdout compared) -/
+section Compstruct
+open EaselModel.Miniapps.Ali
+
+/-- correct pairs never exceed the pairs there are (sensitivity and PPV are at most 100%), for all CT arrays, either rule -/
+theorem compstruct_correct_le_pairs (m : Bool) (len : Nat) (kct tct : List Nat) :
+    (comparePairs m len kct tct).kcorrect ≤ (comparePairs m len kct tct).kpairs ∧
+    (comparePairs m len kct tct).tcorrect ≤ (comparePairs m len kct tct).tpairs := comparePairs_le m len kct tct
+
+/-- the source's side note, proved: under the strict rule the correctly predicted trusted pairs ARE the true predicted pairs -/
+theorem compstruct_strict_correct_symmetric (len : Nat) (kct tct : List Nat) :
+    (comparePairs false len kct tct).kcorrect = (comparePairs false len kct tct).tcorrect := comparePairs_strict_symm len kct tct
+
+/-- a structure compared with itself scores every pair, under either rule -/
+theorem compstruct_self_is_perfect (m : Bool) (len : Nat) (ct : List Nat) :
+    (comparePairs m len ct ct).kcorrect = (comparePairs m len ct ct).kpairs := comparePairs_self m len ct
+
+/-- Mathews' rule (`-m`) only relaxes the strict one -/
+theorem compstruct_mathews_relaxes (len : Nat) (kct tct : List Nat) :
+    (comparePairs false len kct tct).kcorrect ≤ (comparePairs true len kct tct).kcorrect := comparePairs_mathews_ge len kct tct
+
+/-- non-vacuity: trusted `<<..>>`, predicted with the inner pair slipped by one: strict 1/2, Mathews 2/2 -/
+example : (EaselModel.Msa.wuss2ct (EaselModel.Msafile.str "<<..>>")).bind (fun k => (EaselModel.Msa.wuss2ct (EaselModel.Msafile.str "<.<.>>")).map fun t =>
+    ((comparePairs false 6 k t).kcorrect, (comparePairs true 6 k t).kcorrect, (comparePairs true 6 k t).kpairs)) = some (1, 2, 2) := by
+  decide +kernel
+
+end Compstruct
 
 /-! ## esl-afetch: "fetching returns the requested records" (`Miniapps/Afetch.lean`; complete stdout / output file compared) -/
 section Afetch
